@@ -156,7 +156,11 @@ def cfgOf (kv : List (String × String)) : Cfg :=
   let (fn, fd) := ((lookupKV kv "frag").bind parseFrac).getD (base.fragNum, base.fragDen)
   let dead := ((lookupKV kv "dead").bind String.toNat?).getD base.deadBytes
   let small := ((lookupKV kv "small").bind String.toNat?).getD base.smallFile
-  { maxFile := mfs, syncAlways := sync, fragNum := fn, fragDen := fd, deadBytes := dead, smallFile := small }
+  let pol := (lookupKV kv "policy") == some "always"
+  let (tn, td) := ((lookupKV kv "tfrag").bind parseFrac).getD (base.trigFragNum, base.trigFragDen)
+  let tdead := ((lookupKV kv "tdead").bind String.toNat?).getD base.trigDeadBytes
+  { maxFile := mfs, syncAlways := sync, fragNum := fn, fragDen := fd, deadBytes := dead, smallFile := small,
+    policyAlways := pol, trigFragNum := tn, trigFragDen := td, trigDeadBytes := tdead }
 
 def noteKey (ss : SS) (k : Key) : SS :=
   if ss.known.contains k then ss else { ss with known := ss.known ++ [k] }
@@ -212,6 +216,7 @@ def storeStep (ss : SS) (toks : List String) : Option (SS × String) :=
     let (s2, _) := openDisk ss.st.disk
     let hz := ss.known.filter fun k => getStr ss.st k != getStr s2 k
     some (ss, s!"hazard {hz.length} " ++ ",".intercalate (hz.map hexTok))
+  | ["canmerge"] => some (ss, toString (canMerge ss.cfg ss.st))
   | ["dump"] => some (ss, dumpStr ss.st)
   | ["truth"] =>
     let st := ((truth ss.st).toArray.qsort fun a b => a.1 < b.1).toList
